@@ -230,6 +230,8 @@ class Plucker(SMUserList):
             # zero or one arguments passed
             if super().arghandler(v, convertfrom=(SE3,)):
                 return
+            else:
+                raise ValueError('bad argument to Plucker constructor')
 
         else:
             # additional arguments
